@@ -503,7 +503,18 @@ def r8(run, project):
         v = p.value
         return (call_name(v) if isinstance(v, ast.Call) else paths.text(v)) if v is not None else "?"
 
+    def protocol_change(p):
+        """a region method that YIELDS an object of a project class other than the warning (a request to the driver - "skip n
+        bytes" - instead of consuming the bytes itself) changes the processor/driver protocol the rules R2 / R3 / R8, C08-Y4
+        and C13-A3 are stated over: no verdict on that form"""
+        for k, e, _n in p.effects:
+            if k == "yield" and isinstance(e, ast.Call) and isinstance(e.func, ast.Name) and e.func.id not in ("WarningEvent", "MarshalEvent") \
+                    and project.resolve_name(cm, e.func.id) is not None:
+                raise AnalysisError(f"C03: {paths.text(e)[:60]} is yielded by a region method: skipping is delegated to the driver through a "
+                                    "request object - a change of the processor / driver protocol that is not followed (DESIGN section 7)")
+
     def observe_bp(p):
+        protocol_change(p)
         if p.end != "raise":
             return "no error"
         fx = [(k, paths.text(e) if isinstance(e, ast.AST) else e) for k, e, _n in p.effects if k in ("store", "yieldfrom", "yield")]
@@ -521,6 +532,7 @@ def r8(run, project):
     E, S = "self.size_already == self.size_max", f"truthy {mode}"
 
     def observe_ad(p):
+        protocol_change(p)
         fx = [(k, paths.text(e) if isinstance(e, ast.AST) else e) for k, e, _n in p.effects if k in ("store", "yieldfrom", "yield")]
         retired = ("store", "self.is_obsolete = True") in fx
         fx = [x for x in fx if x != ("store", "self.is_obsolete = True")]
